@@ -54,6 +54,8 @@ def run(ctx, eng):
             if resets or cur:
                 bad.append('writes although nothing was processed')
             continue
+        if not cur and not resets and v == T.C(0):
+            continue        # no credit due: nothing written, 0 reported
         if len(cur) != 1:
             bad.append('window not updated exactly once')
             continue
@@ -82,7 +84,7 @@ def run(ctx, eng):
         if len(resets) != 1 or resets[0].value != T.C(0):
             bad.append('a credit path does not reset _bytes_processed to 0')
     ctx.ob('ARITH.increment', f1.qual, 'never credits more than was '
-           'acknowledged nor above the maximum', n_inc >= 2 and not bad,
+           'acknowledged nor above the maximum', n_inc >= 1 and not bad,
            '; '.join(sorted(set(bad))) or '%d crediting paths use '
            'min(_bytes_processed, max - current) and reset the counter'
            % n_inc, node=f1.node)
